@@ -17,12 +17,16 @@ def reg(pid, **kw):
 
 # ------------------------------------------------------------------------------------------- C19
 KMX = ('yuvxyb-math/src/matrix.rs', 'k_matrix.rs', 'verif_kani_matrix')
+KMXP = ('yuvxyb-math/src/matrix.rs', 'k_matrix_points.rs', 'verif_kani_matrix_points')
 def plan_c19(tier, seed):
     FX = 'FIXED integer-valued operands in generic position (det(A) = 4) on which f32/f64 arithmetic is exact; expected values computed in i32 from the textbook definitions'
     hs = [H('matrix_ops_fixed_exact_f32', fixed=True, bounded=FX, domain='one fixed operand set', desc='real compiled f32 instantiation: mul_mat, mul_vec, mul_arr, transpose, cross, dot, scalar_div, component_mul, invert = adj/det, A*inv(A) = inv(A)*A = I, all exact'),
           H('matrix_ops_fixed_exact_f64', fixed=True, bounded=FX, domain='one fixed operand set', desc='same for the f64 instantiation (f32 and f64 behave alike)'),
           H('identity_is_neutral_fixed', fixed=True, bounded=FX, domain='one fixed matrix', desc='identity() is a two-sided unit, f32 and f64')]
-    return {'verus': [('u_matrix', {}), ('u_round', {})], 'kani': [{'crate_dir': 'yuvxyb-math', 'inject': [KMX], 'harnesses': hs}]}
+    SP = '160 fixed operand sets (tools_golden_matrix.py: pseudo-random entries in [-2,2] with |det| >= 0.5, 20 with |det| <= 0.6, 20 with corner entries), references computed in f64 inside the harness'
+    hs += [H(f'matrix_points_{t}_{c}', fixed=True, bounded=SP, domain='40 fixed matrices and vector pairs', desc=f'real {t} instantiation: mul_mat/mul_vec/mul_arr/cross/dot within 1e-5*max(1,|exact|); A*invert(A) and invert(A)*A within 1e-4 of I')
+           for t in ('f32', 'f64') for c in 'abcd']
+    return {'verus': [('u_matrix', {}), ('u_round', {})], 'kani': [{'crate_dir': 'yuvxyb-math', 'inject': [KMX, KMXP], 'harnesses': hs}]}
 reg('C19', plan=plan_c19, level='proof', min_obligations=60,
     title='3x3 matrix/vector algebra agrees with its mathematical definition',
     technique='Verus contracts on the real generic matrix.rs for every exact field T + generated polynomial lemmas (A*inv(A)=I); the products (mul_arr, mul_vec, mul_mat, dot) additionally for every T obeying the standard model of binary32/binary64 rounding (a-priori error bound)',
@@ -30,11 +34,12 @@ reg('C19', plan=plan_c19, level='proof', min_obligations=60,
          'mathematical product/transpose/cross/dot/inverse over the reals, for EVERY T whose operators are exact field operations '
          '(one proof covers the f32 and f64 instantiations); lemma_inverse proves A*inv(A)=inv(A)*A=I for every matrix with det != 0. Rounding: for every T obeying the standard model (relative error 2^-24 per operation; f64 is tighter), '
          'mul_arr / mul_vec / mul_mat / dot are within row_bound = 3.1*2^-24*sum|a_k b_k| of the exact value, i.e. within 2.3e-6 for entries in [-2,2] (lemma_c19_products) - inside the 1e-5 tolerance. '
-         'Not decided: rounding of cross, scalar_div, component_mul (single operations) and of invert (cancellation; the 1e-4 bound for |det| >= 0.5).',
+         'RowVector::cross is within 2.1*2^-24*(|a|+|b|) of a-b for its two exact products (1.1e-6 for entries in [-2,2], lemma_c19_cross); component_mul and scalar_div are single roundings (relative 2^-24 <= 1e-5*max(1,|exact|), lemma_c19_single; unary minus exact, division one rounding). '
+         'Not decided in general: rounding of invert (cancellation; the 1e-4 bound for |det| >= 0.5) - checked, BOUNDED, on 160 fixed matrices (f32 and f64) by Kani together with the product tolerances.',
     note=EXACT + '; the 1e-5/1e-4 tolerances of the statement are assumed to absorb f32/f64 rounding (conditioning argument, not machine-checked). ' + TOOLS,
     assumptions=[EXACT, 'T: Exact axioms (operators are the real field operations); Fx/Fx64 implement them by definition (ghost reals), no axiom admitted',
                  'rounding of f32/f64 stays inside the stated tolerances (not checked)'],
-    not_decided=['rounding of invert (1e-4 for |det| >= 0.5) and of the single-operation functions cross / scalar_div / component_mul'],
+    not_decided=['rounding of invert (1e-4 for |det| >= 0.5) beyond the 160 sample matrices'],
     design_ref='DESIGN.md §5 C19')
 
 # ------------------------------------------------------------------------------------------- C18
